@@ -226,9 +226,7 @@ Inductive vk := VSed | VPN | VDN | VTN | VIC | VOC.
 Record dataset := mkData {
   d_pus : list Z;                           (* planning-unit ids (sub-catchment table order) *)
   d_actions : list action;                  (* in the model's sorted order: index = action index *)
-  d_init_attrs : pk -> Z -> ctx;            (* attributes after Initialise *)
-  d_init_vals : vk -> Z -> Z;               (* per-unit values after Initialise (grid units) *)
-  d_init_total : vk -> Z;
+  d_base_attrs : pk -> Z -> ctx;            (* per-unit attribute record as the Go initialisation derived it *)
   d_limit : option (vk * Q)                 (* the single variable limit, if configured *)
 }.
 
@@ -243,22 +241,73 @@ Definition var (s : state) (k : vk) : vstate :=
   match k with VSed => st_sed s | VPN => st_pn s | VDN => st_dn s
              | VTN => st_tn s | VIC => st_ic s | VOC => st_oc s end.
 
-Definition fresh_v (d : dataset) (k : vk) : vstate :=
-  mkV (match k with VSed => d_init_attrs d PSed | VPN => d_init_attrs d PPN
-                  | VDN => d_init_attrs d PDN | _ => fun _ => ctx0 end)
-      (d_init_vals d k) (d_init_total d k) null_cmd.
-
-(* CoreModel.Initialise: variables rebuilt from the data set, all actions inactive *)
-Definition fresh (d : dataset) : state :=
-  mkS (fun _ => false) None
-      (fresh_v d VSed) (fresh_v d VPN) (fresh_v d VDN) (fresh_v d VTN) (fresh_v d VIC) (fresh_v d VOC).
-
 Definition dummy_action : action := mkAction 0 Gully [].
 Definition act (d : dataset) (i : nat) : action := nth i (d_actions d) dummy_action.
 Definition nactions (d : dataset) : nat := length (d_actions d).
 
-Definition flip (f : nat -> bool) (i : nat) : nat -> bool :=
-  fun j => if Nat.eqb j i then negb (f j) else f j.
+(* ---------- the valuation of an action set (the SPEC side of C01) ----------
+   [f i] = is action i active.  For each planning unit and each of the four action types there is
+   at most one action (wf_dataset); the attribute components that action owns hold the action's
+   actioned or original constants, every other component keeps the data set's base value. *)
+Fixpoint find_from (l : list action) (i : nat) (pu : Z) (t : atype) : option nat :=
+  match l with
+  | [] => None
+  | a :: l' => if (a_pu a =? pu) && atype_eqb (a_type a) t then Some i else find_from l' (S i) pu t
+  end.
+Definition find_act (d : dataset) (pu : Z) (t : atype) : option nat := find_from (d_actions d) 0 pu t.
+
+(* the components the (unique) action of type [t] in unit [pu] contributes under the flags [f] *)
+Definition comp (d : dataset) (k : pk) (f : nat -> bool) (pu : Z) (t : atype) : option comps :=
+  match find_act d pu t with
+  | Some i => Some (consts k (act d i) (f i))
+  | None => None
+  end.
+
+Definition canon_attrs (d : dataset) (k : pk) (f : nat -> bool) (pu : Z) : ctx :=
+  let b := d_base_attrs d k pu in
+  mkCtx (match comp d k f pu Riparian with Some c => fst c | None => veg b end)
+        (match comp d k f pu Riparian with Some c => snd c | None => rip b end)
+        (match comp d k f pu Gully with Some c => fst c | None => gul b end)
+        (match comp d k f pu HillSlope with Some c => fst c | None => hill b end)
+        (match comp d k f pu Wetland with Some c => fst c | None => wet b end)
+        (aux b).
+
+Definition cost_name (k : vk) : mvname := match k with VOC => OpportunityCostVar | _ => ImplementationCostVar end.
+
+Fixpoint cost_from (l : list action) (i : nat) (name : mvname) (f : nat -> bool) (pu : Z) : Z :=
+  match l with
+  | [] => 0
+  | a :: l' => (if (a_pu a =? pu) && f i then round2 (mv a name) else 0) + cost_from l' (S i) name f pu
+  end.
+
+Definition canon_val (d : dataset) (k : vk) (f : nat -> bool) (pu : Z) : Z :=
+  match k with
+  | VSed => calc PSed (canon_attrs d PSed f pu)
+  | VPN => calc PPN (canon_attrs d PPN f pu)
+  | VDN => calc PDN (canon_attrs d PDN f pu)
+  | VTN => calc PPN (canon_attrs d PPN f pu) + calc PDN (canon_attrs d PDN f pu)
+  | VIC | VOC => cost_from (d_actions d) 0 (cost_name k) f pu
+  end.
+
+Definition zsum (l : list Z) : Z := fold_right Z.add 0 l.
+Definition canon_total (d : dataset) (k : vk) (f : nat -> bool) : Z :=
+  zsum (map (canon_val d k f) (d_pus d)).
+
+Definition none_active : nat -> bool := fun _ => false.
+
+Definition fresh_v (d : dataset) (k : vk) : vstate :=
+  mkV (match k with VSed => canon_attrs d PSed none_active | VPN => canon_attrs d PPN none_active
+                  | VDN => canon_attrs d PDN none_active | _ => fun _ => ctx0 end)
+      (canon_val d k none_active) (canon_total d k none_active) null_cmd.
+
+(* CoreModel.Initialise: variables rebuilt from the data set, all actions inactive *)
+Definition fresh (d : dataset) : state :=
+  mkS none_active None
+      (fresh_v d VSed) (fresh_v d VPN) (fresh_v d VDN) (fresh_v d VTN) (fresh_v d VIC) (fresh_v d VOC).
+
+Definition upd (f : nat -> bool) (i : nat) (b : bool) : nat -> bool :=
+  fun j => if Nat.eqb j i then b else f j.
+Definition flip (f : nat -> bool) (i : nat) : nat -> bool := upd f i (negb (f i)).
 
 (* the six action observers, in subscription order Sed, PN, DN, TN, IC, OC
    (buildActionObservers: creation order of the decision variables) *)
@@ -301,13 +350,15 @@ Definition revert (s : state) : state :=
 (* CoreModel.SetManagementAction(index, value) *)
 Definition set_action (d : dataset) (s : state) (i : nat) (b : bool) : state :=
   if Bool.eqb (st_active s i) b then s
-  else accept (observe d (with_active s (fun j => if Nat.eqb j i then b else st_active s j) (Some i)) i).
+  else accept (observe d (with_active s (upd (st_active s) i b) (Some i)) i).
 
 (* SimpleManagementAction.Initialising(De)Activation: every observer builds its command and Does it.
-   (lastApplied is not touched by the action itself.) *)
-Definition initialising_set (d : dataset) (s : state) (i : nat) (b : bool) : state :=
-  if Bool.eqb (st_active s i) b then s
-  else accept (observe d (with_active s (flip (st_active s) i) (st_last s)) i).
+   [setlast] = the caller is ModelManagementActions.Randomly(De)Initialise(Any)Action, which records the
+   action as lastApplied first; InitialiseAllActionsTo(In)active call the action directly. *)
+Definition initialising_set (d : dataset) (s : state) (i : nat) (b : bool) (setlast : bool) : state :=
+  if Bool.eqb (st_active s i) b then
+    (if setlast then with_active s (st_active s) (Some i) else s)
+  else accept (observe d (with_active s (flip (st_active s) i) (if setlast then Some i else st_last s)) i).
 
 (* SynchroniseTo(other) and ModelCompressor.Decompress: SetManagementAction(index, bit) for every index *)
 Fixpoint set_all (d : dataset) (s : state) (i : nat) (bits : list bool) : state :=
@@ -346,9 +397,11 @@ Inductive op :=
 | TryRevert (i : nat)                 (* propose i; revert                *)
 | TryAcceptRevert (i : nat)           (* propose i; accept; revert (undo) *)
 | SetAct (i : nat) (b : bool)         (* SetManagementAction              *)
-| InitSet (i : nat) (b : bool)        (* Initialising(De)Activation       *)
+| InitSet (i : nat) (b : bool) (setlast : bool)  (* Initialising(De)Activation; the randomisation loops and
+                                         InitialiseAllActionsTo(In)active are sequences of these *)
 | Sync (bits : list bool)             (* SynchroniseTo / Decompress       *)
-| Reinit.                             (* Initialise(AsIs|Unchanged): rebuilt from the data *)
+| Reinit.                             (* Initialise(AsIs|Unchanged|Random before its activation pass):
+                                         rebuilt from the data *)
 
 Definition step (d : dataset) (s : state) (o : op) : state :=
   match o with
@@ -356,7 +409,7 @@ Definition step (d : dataset) (s : state) (o : op) : state :=
   | TryRevert i => revert (propose d s i)
   | TryAcceptRevert i => revert (accept (propose d s i))
   | SetAct i b => set_action d s i b
-  | InitSet i b => initialising_set d s i b
+  | InitSet i b l => initialising_set d s i b l
   | Sync bits => synchronise d s bits
   | Reinit => fresh d
   end.
@@ -367,7 +420,7 @@ Definition run (d : dataset) (h : list op) : state := fold_left (step d) h (fres
    histories are therefore required to stay in range *)
 Definition op_in_range (d : dataset) (o : op) : bool :=
   match o with
-  | TryAccept i | TryRevert i | TryAcceptRevert i | SetAct i _ | InitSet i _ => Nat.ltb i (nactions d)
+  | TryAccept i | TryRevert i | TryAcceptRevert i | SetAct i _ | InitSet i _ _ => Nat.ltb i (nactions d)
   | Sync bits => Nat.leb (length bits) (nactions d)
   | Reinit => true
   end.
@@ -376,9 +429,27 @@ Definition wf_history (d : dataset) (h : list op) : bool := forallb (op_in_range
 (* a freshly initialised model to which exactly the set [bits] is applied, in index order *)
 Definition apply_set (d : dataset) (bits : list bool) : state := synchronise d (fresh d) bits.
 
+(* ---------- well-formed data sets (boolean, evaluated on every data set the harness loads) ---------- *)
+Fixpoint zmem (z : Z) (l : list Z) : bool :=
+  match l with [] => false | y :: l' => (y =? z) || zmem z l' end.
+Fixpoint znodup (l : list Z) : bool :=
+  match l with [] => true | y :: l' => negb (zmem y l') && znodup l' end.
+Definition opt_nat_eqb (o : option nat) (i : nat) : bool :=
+  match o with Some j => Nat.eqb j i | None => false end.
+Definition action_ok (d : dataset) (i : nat) : bool :=
+  zmem (a_pu (act d i)) (d_pus d) &&
+  opt_nat_eqb (find_act d (a_pu (act d i)) (a_type (act d i))) i.
+Definition wf_dataset (d : dataset) : bool :=
+  znodup (d_pus d) && forallb (action_ok d) (seq 0 (nactions d)).
+
 (* ---------- observables ---------- *)
 Record vobs := mkVO { o_total : Z; o_vals : list Z }.
 Definition obs_var (d : dataset) (v : vstate) : vobs := mkVO (v_total v) (map (v_vals v) (d_pus d)).
 Record obs := mkObs { o_active : list bool; o_vars : list vobs }.
 Definition obs_of (d : dataset) (s : state) : obs :=
   mkObs (active_list d s) (map (fun k => obs_var d (var s k)) all_vk).
+
+(* the SPEC: what the observables of ANY state with active set [f] must be *)
+Definition canon_obs (d : dataset) (f : nat -> bool) : obs :=
+  mkObs (map f (seq 0 (nactions d)))
+        (map (fun k => mkVO (canon_total d k f) (map (canon_val d k f) (d_pus d))) all_vk).
